@@ -94,7 +94,7 @@ def run_tlc(module, cfg, workdir=None, workers=None, timeout=1800, env=None, sim
     cmd += list(extra_args)
     cmd.append(module)
     e = dict(os.environ)
-    jo = java_opts or '-Xmx8g -Xss64m'
+    jo = java_opts or '-Xmx8g -Xss512m'
     if dfs:
         jo += ' -Dtlc2.tool.queue.IStateQueue=StateDeque'
     e['JAVA_TOOL_OPTIONS'] = jo
